@@ -248,6 +248,9 @@ def _inverse(ck, rule, prog, f, temps, p):
             for n in ast.walk(e):
                 if isinstance(n, ast.Call) and isinstance(n.func, ast.Attribute) and n.func.attr == "group" and n.args and isinstance(n.args[0], ast.Constant):
                     return n.args[0].value
+                if isinstance(n, ast.Subscript) and isinstance(n.value, ast.Call) and isinstance(n.value.func, ast.Attribute) and n.value.func.attr == "groups" \
+                        and isinstance(n.slice, ast.Constant) and isinstance(n.slice.value, int) and n.slice.value >= 0:
+                    return n.slice.value + 1          # sign, n_int, n_frac = mo.groups()
             return None
         if kind == "fxp":
             good = grp(sgn) == 1 and grp(nw) == 2 and grp(nf) == 3
@@ -313,7 +316,7 @@ def _path_kind(prog, p, pf, pats):
     kinds = set()
     for e in pf.ret.elts:
         for n in ast.walk(e):
-            if isinstance(n, ast.Call) and isinstance(n.func, ast.Attribute) and n.func.attr == "group":
+            if isinstance(n, ast.Call) and isinstance(n.func, ast.Attribute) and n.func.attr in ("group", "groups"):
                 for m in ast.walk(n.func.value):
                     if _is_match_call(m):
                         base = m.func.value
@@ -500,7 +503,7 @@ def case_insensitive_groups(ck, rule):
             for c in ast.walk(g[0]):
                 if isinstance(c, ast.Compare) and len(c.ops) == 1 and const_str(c.comparators[0]) is not None:
                     l = c.left
-                    involves_group = any(isinstance(x, ast.Call) and isinstance(x.func, ast.Attribute) and x.func.attr == "group" for x in ast.walk(l))
+                    involves_group = any(isinstance(x, ast.Call) and isinstance(x.func, ast.Attribute) and x.func.attr in ("group", "groups") for x in ast.walk(l))
                     lowered = any(isinstance(x, ast.Call) and isinstance(x.func, ast.Attribute) and x.func.attr in ("lower", "casefold") for x in ast.walk(l))
                     if involves_group and not lowered and not _case_closed(c):
                         ck.bad(rule, p, "every captured field is compared case-insensitively", "%s" % src(c)[:70], g[3],
@@ -509,7 +512,7 @@ def case_insensitive_groups(ck, rule):
             for c in ast.walk(st.value):
                 if isinstance(c, ast.Compare) and len(c.ops) == 1 and const_str(c.comparators[0]) is not None:
                     l = c.left
-                    involves_group = any(isinstance(x, ast.Call) and isinstance(x.func, ast.Attribute) and x.func.attr == "group" for x in ast.walk(l))
+                    involves_group = any(isinstance(x, ast.Call) and isinstance(x.func, ast.Attribute) and x.func.attr in ("group", "groups") for x in ast.walk(l))
                     lowered = any(isinstance(x, ast.Call) and isinstance(x.func, ast.Attribute) and x.func.attr in ("lower", "casefold") for x in ast.walk(l))
                     if involves_group and not lowered and not _case_closed(c):
                         ck.bad(rule, p, "every captured field is compared case-insensitively", "%s" % src(c)[:70], st.stmt,
